@@ -15,6 +15,12 @@ legs
              SnepError(0xC1) / None
   handover   HandoverClient send_octets / recv_octets against a
              HandoverServer answering with a generated select message
+  cutoff     multi-record messages whose record boundaries sit at / near the
+             fragment boundaries, and transfers that END EARLY: after a
+             generated number of fragments the client closes the connection,
+             its connect() is terminated or the RF link breaks.  The server
+             application sees the complete message exactly once or nothing,
+             never the first records as if they were the message
 """
 from hypothesis import strategies as st
 
@@ -507,6 +513,250 @@ def run_session(case, ctx):
               "frames_on_air": len(P.air.log)})
 
 
+# --------------------------------------------------------- leg: cutoff
+def record_of(n, seed, k):
+    """ndef.Record whose canonical encoding has exactly n octets (n >= 6)"""
+    def pay(m):
+        return bytes((seed * 17 + k * 29 + i * 5 + (i >> 8)) & 0xFF
+                     for i in range(m))
+    if n <= 261:
+        return ndef.Record("a/b", "", pay(n - 6))
+    if n <= 264:
+        return ndef.Record("a/bcde"[:n - 258], "", pay(255))
+    return ndef.Record("a/b", "", pay(n - 9))
+
+
+def hr_record(seed):
+    hr = ndef.HandoverRequestRecord("1.2", (seed * 257 + 1) & 0xFFFF)
+    hr.add_alternative_carrier("active", "c1")
+    return hr
+
+
+HR_SIZE = len(b"".join(ndef.message_encoder([hr_record(0)])))
+
+
+@st.composite
+def cut_case(draw):
+    """a message of 2..7 records laid out against the fragment grid of the
+    connection, and the point at which the client side goes away"""
+    lk = draw(link())
+    kind = draw(st.sampled_from(["put", "put", "get", "handover"]))
+    lk["miu_" + lk["server"]] = draw(st.one_of(
+        st.sampled_from([128, 129, 131, 248, 255, 256]),
+        st.integers(128, 400), miu))
+    smiu = draw(st.one_of(st.sampled_from([128, 128, 248, 1984]),
+                          st.integers(128, 400)))
+    eff = min(smiu, lk["miu_" + lk["server"]])
+    # position in the octet stream the client cuts into fragments of eff
+    pos = {"put": 6, "get": 10, "handover": HR_SIZE}[kind]
+    recs = []
+    for _ in range(draw(st.integers(2, 7) if eff <= 600
+                        else st.integers(2, 3))):
+        how = draw(st.sampled_from(["edge", "edge", "edge", "half", "free"]))
+        nxt = (pos // eff + 1) * eff          # next fragment boundary
+        if how == "edge":
+            n = nxt - pos + draw(st.sampled_from([0, 0, 0, 0, -1, 1, -2, 2,
+                                                  -6, 6]))
+        elif how == "half":
+            n = (nxt - pos) // 2
+        else:
+            n = draw(st.integers(6, 300))
+        if n < 6:
+            n += eff
+        recs.append(n)
+        pos += n
+    nfrag = (pos + eff - 1) // eff
+    case = dict(lk, kind=kind, srv_miu=smiu, srv_rw=draw(st.integers(1, 6)),
+                recs=recs, seed=draw(st.integers(0, 255)),
+                cut=draw(st.one_of(st.integers(1, max(1, nfrag - 1)),
+                                   st.integers(1, nfrag + 2))),
+                how=draw(st.sampled_from(["close", "close", "break",
+                                          "terminate"])),
+                wait=draw(st.sampled_from([0, 0, 0.001, 0.01, 0.05, 0.5])))
+    if kind == "handover":
+        case["cli_miu"] = draw(st.sampled_from([128, 248]))
+        case["cli_rw"] = draw(st.integers(1, 6))
+    return case
+
+
+def run_cut(case, ctx):
+    kind = case["kind"]
+    srv_side = case["server"]
+    cli_side = "t" if srv_side == "i" else "i"
+    opts = {}
+    for side in ("i", "t"):
+        opts[side] = {"miu": case["miu_" + side], "lto": case["lto_" + side],
+                      "agf": case["agf_" + side], "lri": case["lri"],
+                      "lrt": case["lrt"], "brs": case["brs"]}
+    P = p2p.Pair(case["choices"], seed=case["seed"], opts_i=opts["i"],
+                 opts_t=opts["t"])
+    records = [record_of(n, case["seed"], k)
+               for k, n in enumerate(case["recs"])]
+    if kind == "handover":
+        records.insert(0, hr_record(case["seed"]))
+    msg = b"".join(ndef.message_encoder(records))
+    bounds, n = set(), 0        # record boundaries inside the message
+    for r in list(ndef.message_encoder(records))[:-1]:
+        n += len(r)
+        bounds.add(n)
+    answer = message(40, case["seed"] ^ 0x55) if kind == "get" else b""
+    hdr = {"put": 6, "get": 10, "handover": 0}[kind]
+    seen = []          # what reached the server application
+    raw = []           # octets the server tried to process
+    out, done, sends, cut_done, gone = {}, [], [0], [], []
+    try:
+        class SnepSrv(nfc.snep.SnepServer):
+            def process_snep_request(self, request_data):
+                raw.append(bytes(request_data[hdr:]))
+                return nfc.snep.SnepServer.process_snep_request(
+                    self, request_data)
+
+            def process_put_request(self, records):
+                seen.append(b"".join(ndef.message_encoder(records)))
+                return nfc.snep.Success
+
+            def process_get_request(self, records):
+                seen.append(b"".join(ndef.message_encoder(records)))
+                return list(ndef.message_decoder(answer))
+
+        class HoSrv(nfc.handover.HandoverServer):
+            def _process_request_data(self, octets):
+                raw.append(bytes(octets))
+                return nfc.handover.HandoverServer._process_request_data(
+                    self, octets)
+
+            def process_handover_request_message(self, records):
+                seen.append(b"".join(ndef.message_encoder(records)))
+                return hs_records(20, case["seed"])
+
+        def start_server(llc):
+            (HoSrv if kind == "handover" else SnepSrv)(
+                llc, recv_miu=case["srv_miu"], recv_buf=case["srv_rw"]).start()
+
+        def leave(sock):
+            """the client side goes away"""
+            if case["wait"]:
+                P.sched.sleep(case["wait"])
+            cut_done.append(sends[0])
+            if case["how"] == "close":
+                sock.close()
+            elif case["how"] == "break":
+                P.air.break_link()
+            else:
+                gone.append(1)
+
+        def tap(sock):
+            orig = sock.send
+
+            def send(*args, **kwargs):
+                if sends[0] == case["cut"] and not cut_done:
+                    leave(sock)
+                sends[0] += 1
+                return orig(*args, **kwargs)
+            sock.send = send
+
+        def client(llc):
+            try:
+                if kind == "handover":
+                    c = nfc.handover.HandoverClient(llc)
+                    c.connect(recv_miu=case["cli_miu"],
+                              recv_buf=case["cli_rw"])
+                    tap(c.socket)
+                    out["sent"] = c.send_octets(msg)
+                    out["result"] = c.recv_octets(timeout=5.0)
+                else:
+                    c = nfc.snep.SnepClient(llc, max_ndef_msg_recv_size=9999)
+                    c.connect("urn:nfc:sn:snep")
+                    tap(c.socket)
+                    if kind == "put":
+                        out["result"] = c.put_octets(msg)
+                    else:
+                        out["result"] = c.get_octets(msg, timeout=5.0)
+                c.close()
+            except nfc.snep.SnepError as e:
+                out["snep_error"] = e.errno
+            except nfc.llcp.Error as e:
+                out["llcp_error"] = e
+            except Exception as e:
+                out["other"] = e
+            finally:
+                done.append(1)
+
+        P.on_connect[srv_side] = start_server
+        P.on_connect[cli_side] = lambda llc: P.sched.spawn(
+            lambda: client(llc), "client")
+        P.terminate[cli_side] = lambda: bool(done) or bool(gone)
+        P.start()
+        finished = P.sched.run_until(
+            lambda: "i" in P.result and "t" in P.result, 120.0)
+        # the serve thread works off what it has after the link is gone
+        P.sched.sleep(1.0)
+        P.sched.settle()
+        failures = P.sched.failures()
+        blocked = [repr(t) for t in P.sched.blocked()]
+    finally:
+        P.close()
+    # ----------------------------------------------------------- verdicts
+    was_cut = bool(cut_done)
+    ctx.set_class("cutoff/" + kind)
+    if P.exc:
+        side, e = sorted(P.exc.items())[0]
+        raise unexpected(e, "connect-raises")
+    for name, e in failures:
+        raise unexpected(e, "thread-died:" + name)
+    if "other" in out and not was_cut:
+        raise unexpected(out["other"], "client-raises")
+    if not done:
+        raise Violation("client-never-finished", "blocked: %r" % blocked)
+    if not finished:
+        raise Violation("connect-did-not-return", "blocked: %r" % blocked)
+    for s in seen:
+        if s != msg:
+            raise Violation(
+                "delivered-in-part",
+                "%s of %d octets in %d records (%r), client left after %r "
+                "fragment(s) by %s: the server application received %d "
+                "octets%s" % (kind, len(msg), len(records), case["recs"],
+                              cut_done, case["how"], len(s),
+                              " = the first record(s)" if len(s) in bounds
+                              else ""))
+    if len(seen) > 1:
+        raise Violation("delivered-more-than-once", "%d times" % len(seen))
+    if not was_cut:
+        ctx.label("complete")
+        ok = out.get("result") is True if kind == "put" else \
+            out.get("result") is not None and bytes(out["result"]) == (
+                answer if kind == "get" else b"".join(ndef.message_encoder(
+                    hs_records(20, case["seed"]))))
+        if seen != [msg] or not ok:
+            raise Violation("not-delivered-once-intact",
+                            "%s of %d octets: application saw %r, client %r"
+                            % (kind, len(msg), [len(s) for s in seen],
+                               repr(out)[:120]))
+        if [r for r in raw if r] != [msg]:
+            raise Violation("raw-octets-differ", "%r" % [len(r) for r in raw])
+    else:
+        ctx.label("left-by-" + case["how"])
+        ctx.label("delivered" if seen else "not-delivered")
+        eff = min(case["srv_miu"], case["miu_" + srv_side])
+        if cut_done[0] * eff - hdr in bounds:
+            # what had been sent when the client left ends where a record ends
+            ctx.label("left-at-record-boundary")
+            ctx.nontrivial()
+        part = [r for r in raw if r and len(r) < len(msg)]
+        if part:
+            ctx.label("server-processed-a-part")
+            if len(part[0]) in bounds:
+                ctx.label("part-ends-at-record-boundary")
+                ctx.nontrivial()
+    if "other" in out:
+        ctx.label("client-exception:" + type(out["other"]).__name__)
+    ctx.note({"recs": case["recs"], "octets": len(msg), "cut": cut_done,
+              "how": case["how"], "server_processed": [len(r) for r in raw],
+              "application_saw": [len(s) for s in seen],
+              "frames_on_air": len(P.air.log)})
+
+
 def _leg(name, gen, q, t):
     return Leg(name, run=run, gen=lambda tier: gen, quick=q, thorough=t,
                shards_quick=6, shards_thorough=16, nt_floor=0.2,
@@ -538,6 +788,22 @@ LEGS = [
              "generated link configuration; every request must reach the "
              "server application once and intact, every result must be the "
              "right one; non-trivial = always (at least two requests)."),
+    Leg("cutoff", run=run_cut, gen=lambda tier: cut_case(), quick=600,
+        thorough=12000, shards_quick=6, shards_thorough=16, nt_floor=0.1,
+        rule="SNEP put / get requests and handover requests of 2..7 NDEF "
+             "records laid out against the fragment grid of the connection "
+             "(records ending at a fragment boundary +-0/1/2/6, half way, or "
+             "of free size; connection MIU mostly 128..400), sent by the real "
+             "SnepClient / HandoverClient; after a generated number of "
+             "fragments (1..all+2, i.e. also never) and a generated pause the "
+             "client side goes away: it closes the data link connection, its "
+             "connect() is terminated, or the RF link breaks.  The server "
+             "application must have seen the complete message exactly once "
+             "or nothing (and the complete message with the right result "
+             "when the client did not leave).  non-trivial = the client left "
+             "when the octets sent so far ended exactly at a record boundary "
+             "inside the message, or the SNEP server worked on a reassembled "
+             "part that ends at a record boundary."),
     _leg("snep-put", snep_case("put"), 700, 12000),
     _leg("snep-get", snep_case("get"), 700, 10000),
     _leg("handover", ho_case(), 500, 8000),
